@@ -147,7 +147,7 @@ FamCall(p) ==
   IN  PF(<<Fn("f", <<Par("p", T(pk))>>, <<T(rk)>>, use \o body)>>,
          (IF p.a = 4 THEN <<SVar("v", T(ak), TI(ak, 3))>> ELSE <<>>)
          \o <<SPr(<<PL("start")>>), SDef("r", Call(V("f"), <<arg>>)), PrA("r", "r")>>)
-Oth(k, salt) == (((k - 1) + 1 + ((Seed + salt) % (NK - 1))) % NK) + 1        \* another kind than k (seeded)
+Oth(k, j) == (((k - 1) + <<5, 1, 7, 10, 3, 8, 2, 4, 9>>[j]) % NK) + 1                    \* another kind than k (fixed choices, so that identities do not vary with the seed)
 CallIdx == { p \in { [fam |-> "call", pk |-> k, rk |-> IF rs = 0 THEN k ELSE Oth(k, rs), a |-> a, ak |-> IF as = 0 THEN k ELSE Oth(k, as + 2), b |-> b] :
                        k \in KSel(3, 3), rs \in 0..(IF Full THEN 3 ELSE 1), a \in 1..4, as \in 0..(IF Full THEN 3 ELSE 1), b \in 1..6 } :
                /\ (p.a # 4 => p.ak = p.pk)
